@@ -5,7 +5,7 @@ import (
 )
 
 func init() {
-	Runners["C16"] = fileRunner(func(p *harness.Program) Result { return RunC16(p, false) })
+	Runners["C16"] = fileRunnerEnum(func(p *harness.Program) Result { return RunC16(p, false) })
 	harness.Specs["C16"] = &harness.PropSpec{
 		ID: "C16", Test: "TestC16", Kind: "file", Level: "fault_enumeration",
 		Quick: 480, Thorough: 20000,
